@@ -1,7 +1,7 @@
 SPECIFICATION Spec
-CONSTANTS K = 2
+CONSTANTS K = 3
           KO = 0
-          W = 1
+          W = 0
           Ext = FALSE
           ValSet = "plain"
 INVARIANTS Emit EmitVals
